@@ -40,6 +40,11 @@ def check(run):
         for L in range(1, S + 1):
             go(f'process T1 N={N} stream length {L}, all chunkings', FREE + ({'entry': 'process', 'L': L, 'N': N, 'alphabet': ALPHA_C02, 'script': 'big'},), 1500)
         bounds.setdefault('process_N', []).append(N)
+    PAY = [ord(c) for c in 'SK "#1\n;A:']
+    for N in ((4, 6, 8) if thorough else (4, 6)):
+        for L in range(1, (6 if thorough else 5) + 1):
+            go(f'process T1 N={N} stream length {L} over the payload alphabet S K blank quote # 1 LF ; A :', FREE + ({'entry': 'process', 'L': L, 'N': N, 'alphabet': PAY, 'max_empty': 0},), 1500,
+               required=(L <= 4))
     if thorough:
         go('process T1 N=16 stream length 5', FREE + ({'entry': 'process', 'L': 5, 'N': 16, 'alphabet': ALPHA_C02},), 2400, required=False)
     viol = {}
@@ -78,6 +83,9 @@ def confirm(run, v):
             ok = bool(obs.get('not_suffix'))
         elif v['rule'] == 'RETURNED_OK':
             ok = obs.get('result') == 'ok'
+        elif v['rule'] == 'ORDER':
+            from ..checks.abstract_process import order_violation_native
+            ok = order_violation_native(obs.get('trace', [])) is not None
         else:
             ok = False
         detail['release' if rel else 'dev'] = {'observation': obs, 'reproduced': ok}
